@@ -198,6 +198,7 @@ func H_C17_counter() {
 		v += d
 	}
 	verifrt.Assume(cond(v))
+	viaSet := verifrt.Choose("viaSet", 2) == 1
 	var wg sync.WaitGroup
 	wg.Add(2)
 	var callStamp, retStamp int
@@ -218,8 +219,14 @@ func H_C17_counter() {
 	go func() {
 		defer wg.Done()
 		verifrt.MustFinish()
+		running := start
 		for _, d := range deltas {
-			c.Update(d)
+			running += d
+			if viaSet {
+				c.Set(running) // the absolute setter must wake the same waiters as the relative one
+			} else {
+				c.Update(d)
+			}
 		}
 	}()
 	wg.Wait()
